@@ -148,8 +148,10 @@ pub fn run(toks: &[&str]) -> String {
                 let _ = srv.send_to(&out, &path);
                 continue;
             }
-            // fresh reference time, leap = tag (0..2), interval 4 s: the report itself is not judged here
-            let (rs, rn) = vclock::get_real();
+            // leap = tag (0..2), interval 4 s: the report itself is not judged here.  Reference time: the
+            // current instant, or - for tags = 3 mod 4 - one fixed instant (chronyd repeats its reference
+            // time while it has had no new measurement; nothing in the poller may hang on that)
+            let (rs, rn) = if s.tag % 4 == 3 { (1_600_000_000i64, 123_456_789i64) } else { vclock::get_real() };
             let t = mk_tracking(s.refid, (s.tag % 3) as u16, rs, rn as u32, (s.tag as u32) << 8, 0, 0, 4 << 25 | 1 << 23);
             let seq = if s.mode == 0 { req.sequence ^ 1 } else { req.sequence };
             let reply = Reply { status: Status::Success, cmd: 33, sequence: seq, body: ReplyBody::Tracking(t) };
